@@ -262,7 +262,64 @@ fn run_matches(exp: &[Value], act: &[NsObs], input: &[u8]) -> Result<(), (usize,
     Ok(())
 }
 
+/// NsReader totality: the whole document read with read_resolved_event_into, GOING ON after every recoverable error
+/// (namespace errors, ill-formedness), every element and attribute name resolved and the prefixes listed after every call,
+/// on the slice and on a chunked source: no panic, and the run ends.
+fn ns_total(input: &[u8]) -> Result<(), String> {
+    use quick_xml::events::Event;
+    use quick_xml::NsReader;
+    for chunked in [false, true] {
+        let r = std::panic::catch_unwind(std::panic::AssertUnwindSafe(|| -> Result<(), String> {
+            let plan = Plan { cuts: if chunked { vec![2; input.len() / 2 + 1] } else { vec![] }, ..Default::default() };
+            let mut reader = NsReader::from_reader(crate::env::Chunked::new(input, plan));
+            let mut buf = Vec::new();
+            for _ in 0..(2 * input.len() + 8) {
+                buf.clear();
+                let mut names: Vec<Vec<u8>> = Vec::new();
+                let mut attrs: Vec<Vec<u8>> = Vec::new();
+                let mut eof = false;
+                match reader.read_resolved_event_into(&mut buf) {
+                    Ok((res, ev)) => {
+                        let _ = format!("{res:?}");
+                        match ev {
+                            Event::Eof => eof = true,
+                            Event::Start(e) | Event::Empty(e) => {
+                                names.push(e.name().as_ref().to_vec());
+                                for a in e.attributes().with_checks(false).flatten() {
+                                    attrs.push(a.key.as_ref().to_vec());
+                                }
+                            }
+                            Event::End(e) => names.push(e.name().as_ref().to_vec()),
+                            _ => {}
+                        }
+                    }
+                    Err(quick_xml::Error::Syntax(_)) | Err(quick_xml::Error::Io(_)) => eof = true,
+                    Err(_) => {}
+                }
+                for n in &names {
+                    let _ = format!("{:?}", reader.resolve_element(quick_xml::name::QName(n)));
+                }
+                for a in &attrs {
+                    let _ = format!("{:?}", reader.resolve_attribute(quick_xml::name::QName(a)));
+                }
+                let _ = reader.prefixes().count();
+                if eof {
+                    return Ok(());
+                }
+            }
+            Err("the run does not end".to_string())
+        }));
+        match r {
+            Ok(Ok(())) => {}
+            Ok(Err(e)) => return Err(e),
+            Err(_) => return Err(format!("panic ({} source)", if chunked { "chunked" } else { "one-piece" })),
+        }
+    }
+    Ok(())
+}
+
 pub fn replay(file: &str, prop: &str, out_dir: &str, known_dev: &str) -> Value {
+    let mut total_seen: std::collections::HashSet<Vec<u8>> = std::collections::HashSet::new();
     let f = std::io::BufReader::new(std::fs::File::open(file).expect("behaviour file"));
     let (mut n, mut runs, mut cmp, mut viol, mut nontriv) = (0u64, 0u64, 0u64, 0u64, 0u64);
     let mut devs = 0u64;
@@ -282,6 +339,20 @@ pub fn replay(file: &str, prop: &str, out_dir: &str, known_dev: &str) -> Value {
         }
         if samples.len() < 3 && ops.iter().any(|o| o == "rte") && n % 211 == 0 {
             samples.push(json!({"document": String::from_utf8_lossy(&b.input), "calls": ops}));
+        }
+        if total_seen.insert(b.input.clone()) {
+            runs += 1;
+            if let Err(e) = ns_total(&b.input) {
+                viol += 1;
+                if files.len() < 5 {
+                    let path = format!("{}/{}-total-{}.json", out_dir, prop, files.len());
+                    std::fs::create_dir_all(out_dir).ok();
+                    std::fs::write(&path, serde_json::to_string_pretty(&json!({"property": prop, "kind": "ns-total", "what": e,
+                        "input": b.input, "document": String::from_utf8_lossy(&b.input)})).unwrap()).ok();
+                    println!("VIOLATION property={} replay={}", prop, path);
+                    files.push(path);
+                }
+            }
         }
         let len = b.input.len();
         let variants: Vec<(u8, Plan, usize, bool)> = vec![
